@@ -51,7 +51,8 @@ CLAIMED = {
              "statement of the law; complete decision trees of bounded instances are enumerated with a scripted generator (path probabilities sum to 1). "
              "C08_translated_choose: the weight computation of choose_compatible_weight is TRANSLATED from core.py on every run (Extracted/Choose.lean) and proved equal "
              "to the model's chooseProbs, so the choice laws hold of the code as written now; an unreadable but equivalent rewrite is validated over all weight "
-             "vectors of length 1-4 over {0, 1/2, 1, 2, 3} instead.",
+             "vectors of length 1-4 over {0, 1/2, 1, 2, 3} instead. C08_translated_compatIds: the option list (get_compatible_bond_descriptor_ids) is translated "
+             "likewise and proved equal to the model's compatibleIds.",
         note="The tree-level normalisation is proved per decision node (C08_choose_sums_to_one) and checked by enumeration for whole trees; "
              "long-run frequencies are not used to decide.",
         technique="Lean 4 proofs of the selection law (weight computation translated from source on every run) + interface-level differential check + exhaustive path enumeration for bounded instances",
@@ -62,10 +63,12 @@ CLAIMED = {
              "percentage of it, percentages sum to 100 within 1e-6, caller's mass kept), C12_percentages_preserved (position by position every percentage the user wrote is still there, whatever the answer), "
              "C12_absolute_preserved (an absolute mass written without percentage is kept exactly when no percentage is inferred), C12_underdetermined, rejection lemmas, and the recorded "
              "completeness counterexample. Correspondence: all 363 shapes of 1-5 components x value patterns x caller mass through the real function, "
-             "every resulting field compared; oracle: an independent exact linear-algebra classifier of the specification.",
+             "every resulting field compared; oracle: an independent exact linear-algebra classifier of the specification. C12_translated_setSys / "
+             "C12_translated_setRel: the two linked setters of Mixture are TRANSLATED from mixture.py on every run (Extracted/Mixture.lean) and proved equal to the "
+             "model's setSys / setRel; an unreadable but equivalent rewrite is validated on 3 024 (state, argument) pairs instead.",
         note="Known finding determined-but-refused (completeness) is reported as KNOWN-FINDING; the accepted-contradiction defect was repaired by a fix: commit "
              "and the model follows the repaired code. binary64 vs exact rationals: compared at 1e-9, decisions at the 1e-6 tolerances are exact.",
-        technique="Lean 4 proofs over a line-by-line model + exhaustive differential check + independent classifier oracle",
+        technique="Lean 4 proofs over a line-by-line model (Mixture setters translated from source on every run) + exhaustive differential check + independent classifier oracle",
         ref="7/C12"),
     "C13": dict(
         text="Lean 4 theorems about sysLoop / sysGenerator / sysGenerate (model of system.py:156-186 on top of the generation model): C13_stop (the "
@@ -109,7 +112,7 @@ CLAIMED = {
              "(find / rfind / count / negative-index slicing / strip / split lemmas, int(str(n)) = n), C01_desc_list_roundtrip, and of mixture specifiers: "
              "C01_mixture_abs_roundtrip / C01_mixture_rel_roundtrip (.|m| and .|p%| read back as m and p for every number whose printed form satisfies the decidable "
              "MixNumOK, signed-exponent forms such as 2.5e-05 included) and of distributions: C01_distribution_roundtrip + C01_uniform_roundtrip (all six families: the printed form reads back as the same family and parameters through the "
-             "substring dispatch, strip, startswith and the model of ast.literal_eval / float of a slice / integer bounds; decidable TokOK on the printed parameters); C02_token_lossless gives the token level its raw-text half. After a generate() call the object "
+             "substring dispatch, strip, startswith and the model of ast.literal_eval / float of a slice / integer bounds; decidable TokOK on the printed parameters); C02_token_lossless gives the token level its raw-text half; C01_translated_printMix: the printed mixture text is TRANSLATED from Mixture.generate_string on every run and proved equal to the model's printMix. After a generate() call the object "
              "still prints its canonical string. The fixed-point, same-object, layout-independence, no-bar, reparse and same-seed-same-molecule "
              "clauses are decided on the implementation by the round-trip oracle over all archetypes x 3 layouts, systems and the documented strings.",
         note="Partial: beyond bond descriptors and mixture specifiers (tokens, objects, molecules) the fixed-point / same-object clauses are not theorems on characters "
@@ -145,7 +148,8 @@ CLAIMED = {
     "C16": dict(
         text="Lean model of gen_reaction_graph (the three passes, NetworkX merge semantics) compared edge by edge and attribute by attribute with the real graph of "
              "every molecule; theorems: atom edges exactly for weight >= 0, weight edges join compatible descriptors only, normalisation of the weight rule and "
-             "of explicit lists, equality of the written probability with the generator's vector (C08) when weights are not all zero, and the witness that the "
+             "of explicit lists — on the graph model itself: C16_inner_normalised (prob / term_prob of every descriptor node of an object), C16_list_normalised, C16_trans_normalised, "
+             "C16_inner_absent —, equality of the written probability with the generator's vector (C08) when weights are not all zero, and the witness that the "
              "code's own validate_graph only checks the last node. Oracle: per-node sums for every descriptor node and the generator's law recomputed from "
              "the parsed object.",
         note="Hypotheses the proof forces (reported, exercised on the code): all compatible weights zero (generator uniform, graph has no edge); a left terminal "
@@ -168,7 +172,8 @@ CLAIMED = {
     "C09": dict(
         text="Decided by composition, without statistics. Lean 4: C09_stop_interval (with strictly increasing cumulative masses, exactly n units iff the target lies in "
              "[a_(n-1), a_n)), C09_target_interval_of_run (read off a run of the generation model via C07_stop_rule), C09_block_law_normalised (block probabilities "
-             "F(a_n)-F(a_(n-1)) telescope), C07_one_draw (one independent draw per object), C09_parameters (documented parameter order on the model parser). The check "
+             "F(a_n)-F(a_(n-1)) telescope), C07_one_draw (one independent draw per object), C09_parameters (documented parameter order on the model parser, six kernel-evaluated instances) and C09_parameter_order (the same for EVERY pair of written numerals of the "
+             "literal syntax, all six families: written order = parameter order, no family taken for another). The check "
              "feeds a grid of quantiles through a scripted generator into the real generation of linear chains (1-2 blocks) and requires every block size to be the one "
              "the documented law's closed-form quantile assigns.",
         note="C09_numeric_partial: that SciPy's draw follows the declared law is tied deterministically to closed-form quantiles (C11's grid), not proved. For laws with atoms "
